@@ -15,4 +15,15 @@ PROPS = {
     },
 }
 
+PROPS["C02"] = {
+    "modules": ["Foundation.Proofs.C02"],
+    "facts": True,
+    "level_text": "Machine-checked refinement of the literal setNonce (incl. Go's sort.Search) to the full-history spec: for every TTL and every unbounded history a nonce is accepted iff it is 13-digit, never accepted before and not older than any accepted nonce by more than the TTL; corollaries at_most_once, too_old_rejected, exact window edge, bad_format_rejected, fresh_accepted, reject_keeps_state, sender independence (per-sender projection). Constants 50 s / 13 digits are re-extracted from the source each run. The model is tied to the code by exhaustive symbolic sequences on the exported setNonce and by end-to-end batch/task histories with replayed signed requests.",
+    "level_note": "Trusted: Lean kernel + 3 standard axioms; len(FormatUint n)=13 <-> 10^12<=n<10^13 (tested at the four boundaries, not proved); protobuf round-trip of proto.Nonce; one sender <-> one composite key; legacy single-integer nonce encoding excluded; the model is the hand transcription checked by the differential run.",
+    "trusted_base": ["core/nonce.go setNonce/checkNonce modelled by Nonce.setNonce/stepMulti", "decimal length 13 <-> [10^12,10^13) (boundary-tested)", "proto.Nonce marshal/unmarshal round-trip"],
+    "hypotheses": ["stored windows were produced by setNonce from the empty window (legacy single-integer records excluded)"],
+    "not_modelled": ["legacy nonce decoding branch of checkNonce", "NBTx/immediate route (nonce not checked there by design of the code; property quantifies over batches and task lists)"],
+    "assumptions": ["Fabric delivers unique tx ids; ACL maps a key to one address"],
+}
+
 NOT_APPLICABLE = {}
